@@ -20,7 +20,7 @@ import sys
 
 from dsim import sched, seams, term
 from dsim.display import DisplayOracle, SpanTracker, nonblank
-from dsim.programs import Pristine, build
+from dsim.programs import FAULTS, InjectedFault, InjectedInterrupt, Pristine, build
 from dsim.seams import SimClock, SimFile, scrub_links
 
 PROP = "C19"
@@ -186,6 +186,8 @@ class C19:
             # printed through a truecolor console rather than encoded piece by piece
             bases = [gen_base(rng) if rng.random() < 0.5 else None for _ in texts]
             return {"kind": "rt", "cfg": {"auto_refresh": False}, "texts": texts, "bases": bases}
+        if rng.random() < 0.12:
+            return self._gen_pf(rng)
         W = rng.choice([24, 40, 60])
         cfg = {"width": W, "height": rng.choice([6, 10]), "display": rng.choice(["live", "progress"]),
                "auto_refresh": rng.random() < 0.4, "rps": rng.choice([4, 20]), "transient": rng.random() < 0.3,
@@ -276,6 +278,37 @@ class C19:
             events.append(["flush", "o"])
         return {"kind": "proxy", "cfg": cfg, "events": events, "wide": wide}
 
+    def _gen_pf(self, rng):
+        """A FileProxy whose console fails some of the prints the proxy issues (a render hook that
+        raises on demand): a failed write may lose the lines it completed, nothing else."""
+        n = rng.randint(2, 8)
+        lines = []
+        for i in range(n):
+            if rng.random() < 0.1:
+                lines.append("")
+            else:
+                lines.append("Q%dz %s" % (i, " ".join(rng.choice(WORDS[:3] + ["third", "x y"]) for _ in range(rng.randint(0, 3)))))
+        s = "".join(ln + "\n" for ln in lines)
+        if rng.random() < 0.4:
+            s += "Q99z tail"
+        npts = rng.randint(0, max(1, len(s) // 6))
+        pts = sorted(set(rng.randrange(1, len(s)) for _ in range(npts))) if len(s) > 1 else []
+        events = []
+        prev = 0
+        for p_ in pts + [len(s)]:
+            chunk = s[prev:p_]
+            prev = p_
+            if not chunk:
+                continue
+            fault = None
+            if "\n" in chunk and rng.random() < 0.3:
+                fault = rng.choice(["exc", "base"])
+            events.append(["w", "o", chunk, fault])
+            if rng.random() < 0.1:
+                events.append(["flush", "o"])
+        events.append(["flush", "o"])
+        return {"kind": "pf", "cfg": {"auto_refresh": False}, "events": events}
+
     def _encode(self, cfg, line):
         if not line:
             return ""
@@ -285,6 +318,8 @@ class C19:
     def setup(self, sim, case, env):
         if case["kind"] == "rt":
             return RoundTrip(sim, case, env)
+        if case["kind"] == "pf":
+            return ProxyFault(sim, case, env)
         return Proxy(sim, case, env)
 
     def finish(self, sim, case, prog):
@@ -420,6 +455,91 @@ class RoundTrip:
                 v.append({"oracle": "exception", "sig": "exception:" + type(t.exc).__name__, "msg": (t.tb or "")[-600:], "seq": 0})
         return {"violations": v, "faults": {}, "probes": {"roundtrip_chars": self.n, "roundtrip_texts": len(self.case["texts"]), "roundtrip_printed_with_base_style": self.with_base},
                 "nontrivial": len(self.case["texts"]) > 0, "sample": {"kind": "rt", "texts": self.case["texts"][:2]}}
+
+
+class ProxyFault:
+    """FileProxy over a plain console; a render hook fails chosen prints."""
+
+    def __init__(self, sim, case, env):
+        self.sim = sim
+        self.case = case
+        self.viol = []
+        self.failed = 0
+        self.completed = 0
+        sim.spawn(self.body, "c0")
+
+    def _v(self, oracle, sig, msg):
+        if not self.viol:
+            self.viol.append({"oracle": oracle, "sig": sig, "msg": msg, "seq": self.sim.seq})
+
+    def body(self):
+        import io as _io
+
+        from rich.console import Console, RenderHook
+        from rich.file_proxy import FileProxy
+
+        prog = self
+
+        class Hook(RenderHook):
+            armed = None
+
+            def process_renderables(self, renderables):
+                how, self.armed = self.armed, None
+                if how:
+                    raise (InjectedInterrupt if how == "base" else InjectedFault)("C19-print")
+                return renderables
+
+        file = SimFile(self.sim, tty=True)
+        con = Console(file=file, width=200, height=50, force_terminal=True, color_system="truecolor", _environ={})
+        hook = Hook()
+        con.push_render_hook(hook)
+        proxy = FileProxy(con, _io.StringIO())
+        pending = ""
+        expected = []  # [line, optional]
+        for ev in self.case["events"]:
+            self.sim.yield_point("op")
+            if ev[0] == "w":
+                chunk, fault = ev[2], ev[3] if len(ev) > 3 else None
+                parts = (pending + chunk).split("\n")
+                complete, pending = parts[:-1], parts[-1]
+                self.completed += len(complete)
+                hook.armed = fault if complete else None
+                try:
+                    proxy.write(chunk)
+                    if fault and complete:
+                        self._v("fault", "fault-swallowed", "the error of the print issued by write() did not come out of write()")
+                    expected.extend([ln, False] for ln in complete)
+                except FAULTS:
+                    self.failed += 1
+                    # un-acknowledged: the lines this write completed may be lost (or printed);
+                    # the partial line after them was taken and stays pending
+                    expected.extend([ln, True] for ln in complete)
+                hook.armed = None
+            else:
+                if pending:
+                    expected.append([pending, False])
+                    pending = ""
+                proxy.flush()
+        got = term.visible_text(file.getvalue()).split("\n")
+        if got and got[-1] == "":
+            got.pop()
+        i = 0
+        for ln, optional in expected:
+            if i < len(got) and got[i] == ln:
+                i += 1
+            elif not optional:
+                self._v("complete", "line-lost-or-mangled-after-fault", "after %d failed print(s) the console shows %r; written lines (optional = completed by a failed write): %r" % (self.failed, got, expected))
+                return
+        if i != len(got):
+            self._v("complete", "line-lost-or-mangled-after-fault", "after %d failed print(s) the console shows %r; written lines (optional = completed by a failed write): %r" % (self.failed, got, expected))
+
+    def finish(self):
+        v = list(self.viol)
+        for t in self.sim.threads:
+            if t.exc is not None:
+                v.append({"oracle": "exception", "sig": "exception:" + type(t.exc).__name__, "msg": "%s died: %s" % (t.name, (t.tb or "")[-600:]), "seq": self.sim.seq})
+        return {"violations": v, "faults": {"failed_prints_under_proxy": self.failed}, "probes": {"pf_runs": 1, "pf_failed_prints": self.failed, "pf_lines_completed": self.completed},
+                "nontrivial": self.completed > 0, "sample": {"kind": "pf", "events": self.case["events"][:10]}}
 
 
 class Proxy:
